@@ -49,8 +49,10 @@ type closure struct {
 type symStr struct{ b []*smt.Term }
 
 type opaqueStr struct {
-	id  int
-	tag string
+	id      int
+	tag     string
+	kind    string      // codec kind for tokens produced by a text codec ("" otherwise)
+	payload []*smt.Term // the encoded bytes (codec tokens only)
 }
 
 type bigV struct{ t *smt.Term } // Int-sorted
@@ -339,6 +341,17 @@ func (in *Interp) strEq(x, y value) *smt.Term {
 		if xok && yok {
 			if xo == yo {
 				return c.True()
+			}
+			if xo.kind != "" && xo.kind == yo.kind && xo.payload != nil && yo.payload != nil {
+				// injective codec: tokens are equal iff their payloads are
+				if len(xo.payload) != len(yo.payload) {
+					return c.False()
+				}
+				var cs []*smt.Term
+				for i := range xo.payload {
+					cs = append(cs, c.Eq(xo.payload[i], yo.payload[i]))
+				}
+				return c.And(cs...)
 			}
 			return in.opaqueEq(xo, yo)
 		}
